@@ -6,9 +6,11 @@
 \*  inst3:    3 instances, name in 3 tokens x 2 locations, postscript names on first/all, 2 families           = 864
 \*  axesfea:  8 axis configurations x 9 feature-code variants x 3 families x 4 instance lists (variable)
 \*            + static (lone UFO, designspace with a point axis) x 9 feature-code variants x 2 families         = 954
+\*  cvparams: cv01 labels (1..2 of 3 strings) x cv02 labels (2..3 of 2 strings) x cv03 {none, 2 labels} x
+\*            {distinct / coinciding feature UI labels, ss01+ss02 none / same name / named like a label, variable / static} = 1152
 SPECIFICATION Spec
 CONSTANTS
-    Slices = {"fallback", "tail", "inst", "inst3", "axesfea"}
+    Slices = {"fallback", "tail", "inst", "inst3", "axesfea", "cvparams"}
     Tier = "quick"
 INVARIANTS
     RefsResolve
